@@ -1,4 +1,5 @@
 import Proofs.Blockwise.C06Server
+import Proofs.Blockwise.C06History
 /-!
 # C06 — block-wise server: handlers see only complete bodies, blocks are exact slices
 
@@ -242,5 +243,95 @@ theorem C06_later_block_never_renders (T : Nat) (st : RState) (i : In) (m : Msg)
   cases hl : alookup (blockKey m) (cacheAt T st i).items with
   | none => rw [extract_later_none hb h0 hl]; rfl
   | some a => rw [extract_later_some hb h0 hl]; rfl
+
+-- histories: what the handler sees ---------------------------------------------------------------
+
+/-- `run` (the fold the driver performs per resource) answers the request after `pre` with
+`step` applied to the state `stateAfter … pre` — so the theorems below, stated with `stateAfter`,
+speak about every position of every run -/
+theorem C06_run_is_step (T : Nat) (st : RState) (pre : List In) (cur : In) (post : List In) :
+    (run T st (pre ++ cur :: post))[pre.length]? = some (step T (stateAfter T st pre) cur).2 := by
+  induction pre generalizing st with
+  | nil => simp [run, stateAfter]
+  | cons i rest ih => simpa [run, stateAfter] using ih (step T st i).1
+
+/-- **C06 (handler sees the in-order concatenation).** In every history of requests — any number
+of endpoints, methods, option sets, resources' worth of interleaving, any timing — starting from
+the empty state: if the handler is invoked with request `m` at some step `cur` of the block-wise
+machinery, then either `cur` carried no Block1 option and `m` is `cur`'s request itself, or there
+is a list `blocks` of requests that
+* is a subsequence of the requests received so far, in order of receipt, ending with `cur`'s,
+* consists of Block1 requests that all have the block key of `cur` (same endpoint key, same method,
+  same cache-key options), the first with block number 0, each later one with a payload matching
+  its size and starting exactly where the previous ones end (`Assembly`),
+and `m` carries that block key and the concatenation of their payloads as its body. -/
+theorem C06_handler_sees_concatenation (T : Nat) (pre : List In) (cur : In) (m : Msg)
+    (ha : cur.assemble = true)
+    (hseen : (step T (stateAfter T RState.init pre) cur).2.seen = some m) :
+    (cur.req.block1 = none ∧ m = cur.req) ∨
+    (blockKey m = blockKey cur.req ∧
+     ∃ blocks, Assembly (blockKey cur.req) blocks m.payload ∧
+       blocks.Sublist (received (pre ++ [cur])) ∧ blocks.getLast? = some cur.req) := by
+  have hinv : SpoolInv (received pre) (stateAfter T RState.init pre).spool := by
+    simpa using stateAfter_spoolInv (T := T) pre (st := RState.init) (h0 := []) (spoolInv_empty [])
+  have hadv : SpoolInv (received pre) (spoolAt T (stateAfter T RState.init pre) cur) :=
+    hinv.of_items (fun k v hl => advance_lookup_some hl)
+  obtain ⟨⟨_, hf⟩, _⟩ := seen_passes ha hseen
+  have hr : received (pre ++ [cur]) = received pre ++ [cur.req] := by
+    simp [received, ha]
+  rw [hr]
+  exact (feed_spoolInv (T := T) (now := cur.now) cur.req hadv).2 m hf
+
+/-- what an `Assembly` is, spelled out: the body is the flattened list of the payloads, every
+block carries Block1 and the one block key, the list is not empty and starts with block 0 -/
+theorem C06_assembly_meaning (k : Key) (blocks : List Msg) (body : Bytes)
+    (h : Assembly k blocks body) :
+    body = (blocks.map (·.payload)).flatten ∧
+    (∀ x ∈ blocks, blockKey x = k ∧ x.block1.isSome) ∧
+    (∃ x b, blocks.head? = some x ∧ x.block1 = some b ∧ b.num = 0) :=
+  ⟨h.body_eq, h.keys, h.head_zero⟩
+
+-- histories: which rendering a later block comes from ---------------------------------------------
+
+/-- **C06 (later blocks come from the latest rendering).** In every history from the empty state,
+a request that reaches the second stage asking for a later block (`num ≠ 0`) never invokes the
+handler, and is either answered 4.08 or answered from a representation `a` (in the sense of
+`C06_block2_is_slice` / `C06_beyond_end_4_00`) that is the *latest* rendering the handler made for
+this block key — the single rendering made for the latest request for the beginning under that
+key (`renderLog` lists the renderings of all steps in order). -/
+theorem C06_later_block_from_latest_rendering (T : Nat) (pre : List In) (cur : In) (m : Msg) (b : Blk)
+    (hp : Passes T (stateAfter T RState.init pre) cur m) (hb : m.block2 = some b) (h0 : b.num ≠ 0) :
+    (step T (stateAfter T RState.init pre) cur).2.seen = none ∧
+    ((step T (stateAfter T RState.init pre) cur).2.resp = errResp REQUEST_ENTITY_INCOMPLETE none ∨
+     ∃ a, latest (blockKey m) (renderLog T RState.init pre) = some a ∧
+          Source T (stateAfter T RState.init pre) cur m a) := by
+  refine ⟨(C06_later_block_never_renders T _ cur m b hp hb h0).1, ?_⟩
+  have hinv : CacheInv (renderLog T RState.init pre) (stateAfter T RState.init pre).cache := by
+    simpa using stateAfter_cacheInv (T := T) pre (st := RState.init) (log := []) (cacheInv_empty [])
+  cases hl : alookup (blockKey m) (cacheAt T (stateAfter T RState.init pre) cur).items with
+  | none => exact Or.inl (C06_no_rendering_4_08 T _ cur m b hp hb h0 hl).1
+  | some a =>
+    refine Or.inr ⟨a, hinv _ _ (advance_lookup_some hl), Or.inr ⟨isFresh_later hb h0, hl⟩⟩
+
+/-- … and when the handler never made a rendering for that block key, or the latest one was
+complete in one response (it is then not kept, see `C06_complete_when_fits`), the answer is 4.08 -/
+theorem C06_no_rendering_made_4_08 (T : Nat) (pre : List In) (cur : In) (m : Msg) (b : Blk)
+    (hp : Passes T (stateAfter T RState.init pre) cur m) (hb : m.block2 = some b) (h0 : b.num ≠ 0)
+    (hnone : latest (blockKey m) (renderLog T RState.init pre) = none) :
+    (step T (stateAfter T RState.init pre) cur).2.resp = errResp REQUEST_ENTITY_INCOMPLETE none := by
+  rcases (C06_later_block_from_latest_rendering T pre cur m b hp hb h0).2 with h | ⟨a, ha, _⟩
+  · exact h
+  · rw [hnone] at ha; cases ha
+
+/-- the rendering log, spelled out: a step of the machinery that invokes the handler with `m`
+appends `(blockKey m, rendering)`; other steps append nothing; `latest` is the last entry of a key -/
+theorem C06_renderLog_meaning (T : Nat) (st : RState) (i : In) (rest : List In) (k k' : Key) (r : Resp)
+    (log : List (Key × Resp)) :
+    renderLog T st (i :: rest) =
+      (if i.assemble then ((step T st i).2.seen.map fun m => (blockKey m, i.render m)).toList else [])
+        ++ renderLog T (step T st i).1 rest ∧
+    latest k (log ++ [(k, r)]) = some r ∧ (k' ≠ k → latest k (log ++ [(k', r)]) = latest k log) := by
+  refine ⟨?_, latest_snoc_self _ _ _, fun h => latest_snoc_ne h _ _⟩
+  by_cases ha : i.assemble = true <;> simp [renderLog, rendered, ha]
 
 end Aiocoap.BwServer
